@@ -1,0 +1,25 @@
+//go:build verif
+
+package verifhook
+
+import (
+	"runtime"
+	"strconv"
+)
+
+func yield() { runtime.Gosched() }
+
+// goid returns the current goroutine's id, parsed from the stack header. Only used for tracing.
+func goid() int64 {
+	var buf [64]byte
+	n := runtime.Stack(buf[:], false)
+	// "goroutine 123 [running]:"
+	s := buf[len("goroutine "):n]
+	for i, c := range s {
+		if c == ' ' {
+			id, _ := strconv.ParseInt(string(s[:i]), 10, 64)
+			return id
+		}
+	}
+	return 0
+}
